@@ -22,16 +22,16 @@ func vFoldFind(list []string, s string) (string, bool) {
 
 // vRefScan returns the reference tokens of text; ok=false: the reference rejects;
 // abstain=true: the statement is silent about some lexeme of the text.
-func vRefScan(text string) (toks []token, ok bool, abstain bool) {
+func vRefScan(text string) (toks []vTok, ok bool, abstain bool) {
 	active, exc, depr := spdxlicenses.GetLicenses(), spdxlicenses.GetExceptions(), spdxlicenses.GetDeprecated()
-	look := func(s string) (token, bool) {
+	look := func(s string) (vTok, bool) {
 		if v, f := vFoldFind(active, s); f {
-			return token{role: licenseToken, value: v}, true
+			return vTok{role: vLic, value: v}, true
 		}
 		if v, f := vFoldFind(exc, s); f {
-			return token{role: exceptionToken, value: v}, true
+			return vTok{role: vExcT, value: v}, true
 		}
-		return token{}, false
+		return vTok{}, false
 	}
 	anyList := func(s string) bool {
 		_, a := vFoldFind(active, s)
@@ -55,7 +55,7 @@ func vRefScan(text string) (toks []token, ok bool, abstain bool) {
 				if len(op) > 1 && len(rest) > len(op) && vIsIDChar(rest[len(op)]) {
 					abstain = true
 				}
-				toks = append(toks, token{role: operatorToken, value: op})
+				toks = append(toks, vTok{role: vOp, value: op})
 				i += len(op)
 				matched = true
 				break
@@ -74,11 +74,11 @@ func vRefScan(text string) (toks []token, ok bool, abstain bool) {
 				if j == len(pre) {
 					return nil, false, abstain
 				}
-				role := documentRefToken
+				role := vDocRef
 				if k == 1 {
-					role = licenseRefToken
+					role = vLicRef
 				}
-				toks = append(toks, token{role: role, value: rest[len(pre):j]})
+				toks = append(toks, vTok{role: role, value: rest[len(pre):j]})
 				i += j
 				isRef = true
 				break
@@ -103,7 +103,7 @@ func vRefScan(text string) (toks []token, ok bool, abstain bool) {
 		}
 		if m > 5 && strings.HasSuffix(run, "-only") {
 			if t, f := look(run[:m-5]); f {
-				if t.role == exceptionToken {
+				if t.role == vExcT {
 					abstain = true
 				}
 				toks = append(toks, t)
@@ -113,7 +113,7 @@ func vRefScan(text string) (toks []token, ok bool, abstain bool) {
 		}
 		if j < len(rest) && rest[j] == '+' {
 			if t, f := look(run + "-or-later"); f {
-				if t.role == exceptionToken {
+				if t.role == vExcT {
 					abstain = true
 				}
 				toks = append(toks, t)
@@ -123,16 +123,16 @@ func vRefScan(text string) (toks []token, ok bool, abstain bool) {
 		}
 		if m > 9 && strings.HasSuffix(run, "-or-later") {
 			if t, f := look(run[:m-9]); f {
-				if t.role == exceptionToken {
+				if t.role == vExcT {
 					abstain = true
 				}
-				toks = append(toks, t, token{role: operatorToken, value: "+"})
+				toks = append(toks, t, vTok{role: vOp, value: "+"})
 				i += j
 				continue
 			}
 		}
 		if v, f := vFoldFind(depr, run); f {
-			toks = append(toks, token{role: licenseToken, value: v})
+			toks = append(toks, vTok{role: vLic, value: v})
 			i += j
 			continue
 		}
